@@ -1,3 +1,100 @@
 package main
 
-func addCaptureBalance(w *World, r *Report, rule string) {}
+import (
+	"fmt"
+	"go/ast"
+	"go/token"
+	"strings"
+)
+
+// addCaptureBalance (R18.2): on every path of the five frame entry points, a debug-tracer
+// start/enter event that was emitted is closed before the function returns — either by a direct
+// CaptureEnd/CaptureExit call or by a deferred closure calling it that was registered on that
+// path — and no join-point region return can slip in between (a join-point abort cannot
+// unbalance the stream).
+func addCaptureBalance(w *World, r *Report, rule string) {
+	for _, rel := range frameFuncs {
+		fl := w.newFlow(forkPath(pkVM), rel)
+		if fl == nil {
+			r.undecided(rule, "vm."+rel, "-", "function not found")
+			continue
+		}
+		isCap := func(c *ast.CallExpr, name string) bool { return fl.calleeIs(c, "EVMLogger", name) }
+		var viol []string
+		var vpos token.Pos
+		nEvents := 0
+		seen := map[ast.Node]bool{}
+		add := func(p token.Pos, m string) {
+			for _, v := range viol {
+				if v == m {
+					return
+				}
+			}
+			if len(viol) == 0 {
+				vpos = p
+			}
+			viol = append(viol, m)
+		}
+		deferCloses := func(n ast.Node) string {
+			d, ok := n.(*ast.DeferStmt)
+			if !ok {
+				return ""
+			}
+			out := ""
+			ast.Inspect(d, func(x ast.Node) bool {
+				if c, ok := x.(*ast.CallExpr); ok {
+					if isCap(c, "CaptureEnd") {
+						out = "start"
+					}
+					if isCap(c, "CaptureExit") {
+						out = "enter"
+					}
+				}
+				return true
+			})
+			return out
+		}
+		rule1 := &flowRule{}
+		rule1.visit = func(fl *Flow, f facts, n ast.Node) {
+			if _, ok := n.(*ast.ReturnStmt); ok {
+				for _, k := range []string{"start", "enter"} {
+					if f["open:"+k] && !f["deferred:"+k] {
+						add(n.Pos(), "the return at "+w.pos(n.Pos())+" is reachable with a Capture"+map[string]string{"start": "Start", "enter": "Enter"}[k]+" event emitted and neither its closing event nor a deferred closing event on the path")
+					}
+				}
+			}
+		}
+		rule1.transfer = func(fl *Flow, f facts, n ast.Node) {
+			if k := deferCloses(n); k != "" {
+				f["deferred:"+k] = true
+				return
+			}
+			for _, c := range callsIn(n) {
+				switch {
+				case isCap(c, "CaptureStart"):
+					f["open:start"] = true
+				case isCap(c, "CaptureEnter"):
+					f["open:enter"] = true
+				case isCap(c, "CaptureEnd"):
+					delete(f, "open:start")
+				case isCap(c, "CaptureExit"):
+					delete(f, "open:enter")
+				default:
+					continue
+				}
+				if !seen[c] {
+					seen[c] = true
+					nEvents++
+				}
+			}
+		}
+		fl.run(rule1, facts{})
+		key := "vm." + rel
+		if len(viol) > 0 {
+			r.violated(rule, key, w.pos(vpos), strings.Join(viol, " | "))
+		} else {
+			r.holds(rule, key, w.pos(fl.fd.Pos()), fmt.Sprintf("%d debug-tracer event sites; every emitted start/enter is closed directly or by a deferred closure on all paths (%d path states)", nEvents, fl.States))
+		}
+	}
+	r.need(rule, 5)
+}
